@@ -51,13 +51,20 @@ def Filter.allowed (f : Filter) (sourceName : S) (packageName : Option S) : Bool
       else true
     | none => true
 
-/-- `int(s)` for decimal digits with optional sign and surrounding blanks (none = ValueError) -/
+/-- single underscores between digits (`int("1_000")`), as Python's integer grammar allows -/
+def underscoresOK : S → Bool
+  | [] => true
+  | '_' :: '_' :: _ => false
+  | ['_'] => false
+  | _ :: r => underscoresOK r
+
+/-- `int(s)`: decimal digits with optional sign, surrounding blanks and single underscores between digits (none = ValueError) -/
 def parseInt (s : S) : Option Int :=
   let cs := Cfg.strip s
   let (neg, ds) : Bool × S := match cs with | '-' :: r => (true, r) | '+' :: r => (false, r) | r => (false, r)
-  if ds.isEmpty || !ds.all Char.isDigit then none
+  if ds.isEmpty || ds.head? = some '_' || !underscoresOK ds || !ds.all (fun c => c.isDigit || c = '_') then none
   else
-    let n : Nat := ds.foldl (fun n c => n * 10 + (c.toNat - '0'.toNat)) 0
+    let n : Nat := (ds.filter (· ≠ '_')).foldl (fun n c => n * 10 + (c.toNat - '0'.toNat)) 0
     some (if neg then -(n : Int) else (n : Int))
 
 /-- one derived pool file -/
@@ -142,6 +149,16 @@ deriving Repr
 def addSrcFile (files : List (Path × Int)) (p : Path) (sz : Int) : List (Path × Int) :=
   if files.any (·.1 = p) then files else files ++ [(p, sz)]
 
+/-- `line.decode().strip().split(maxsplit=2)` when it yields three parts (none = the ValueError of the unpacking):
+    the first two blank-separated tokens and the remainder (which may contain blanks) -/
+def split3 (line : S) : Option (S × S × S) :=
+  let s := Cfg.strip line
+  let t1 := s.takeWhile (fun c => !Cfg.isWs c)
+  let r1 := Cfg.lstrip (s.dropWhile (fun c => !Cfg.isWs c))
+  let t2 := r1.takeWhile (fun c => !Cfg.isWs c)
+  let r2 := Cfg.lstrip (r1.dropWhile (fun c => !Cfg.isWs c))
+  if t1.isEmpty || t2.isEmpty || r2.isEmpty then none else some (t1, t2, r2)
+
 /-- one line of `SourcesParser._do_parse_index` -/
 def sourcesLine (flt : Filter) (ignored : List Path) (st : SState × List PoolFile) (line : S) :
     Except Err (SState × List PoolFile) :=
@@ -149,15 +166,17 @@ def sourcesLine (flt : Filter) (ignored : List Path) (st : SState × List PoolFi
   if line.head? = some ' ' then
     if !s.inSection then pure (s, pool)
     else
-      match Cfg.splitWs (Cfg.strip line) with
-      | [_, sz, fname] =>
-        -- split(maxsplit=2): a third field containing blanks is one field with a blank: skipped
-        let p := pathParts fname
-        if !lexSafe p then pure (s, pool)
-        else match parseInt sz with
-          | some n => pure ({ s with files := addSrcFile s.files p n }, pool)
-          | none => throw .valueError
-      | _ => pure (s, pool)
+      match split3 line with
+      | some (_, sz, fname) =>
+        -- `if " " in filename: continue` (a tab inside the third part does not stop the code)
+        if fname.contains ' ' then pure (s, pool)
+        else
+          let p := pathParts fname
+          if !lexSafe p then pure (s, pool)
+          else match parseInt sz with
+            | some n => pure ({ s with files := addSrcFile s.files p n }, pool)
+            | none => throw .valueError
+      | none => pure (s, pool)
   else if line.head? ≠ some '\n' then
     if startsWith line "Package:".toList then
       match Cfg.splitWs (Cfg.strip line) with
